@@ -212,7 +212,7 @@ func sameLenBase(a, b ssa.Value) bool {
 // domFacts returns the constraint on len(base) that holds on entry to block
 // blk, from the conditions of dominating branches.
 func domFacts(blk *ssa.BasicBlock, base ssa.Value) lenSet {
-	set := lenAll
+	set := flowFacts(blk, base)
 	for b := blk; b != nil; {
 		d := b.Idom()
 		if d == nil {
@@ -664,4 +664,70 @@ func sameLength(a, b ssa.Value) bool {
 	x, ok1 := lenOf(a)
 	y, ok2 := lenOf(b)
 	return ok1 && ok2 && sameLenBase(x, y)
+}
+
+// condLen2 decodes a branch condition into what it says about len(X) when it is
+// true and when it is false. Besides condLen's comparisons it knows
+// strings.HasPrefix / HasSuffix / bytes.HasPrefix with a constant: true gives
+// len(X) >= len(constant), false gives nothing.
+func condLen2(v ssa.Value) (x ssa.Value, whenTrue, whenFalse lenSet, ok bool) {
+	if x, s, ok := condLen(v); ok {
+		return x, s, ^s, true
+	}
+	if u, isU := v.(*ssa.UnOp); isU && u.Op == token.NOT {
+		x, t, f, ok := condLen2(u.X)
+		return x, f, t, ok
+	}
+	if call, isCall := v.(*ssa.Call); isCall && !call.Call.IsInvoke() && len(call.Call.Args) == 2 {
+		switch calleeName(&call.Call) {
+		case "strings.HasPrefix", "strings.HasSuffix":
+			if k, isK := call.Call.Args[1].(*ssa.Const); isK && k.Value != nil && k.Value.Kind() == constant.String {
+				return call.Call.Args[0], lenGE(int64(len(constant.StringVal(k.Value)))), lenAll, true
+			}
+		}
+	}
+	return nil, 0, 0, false
+}
+
+// flowFacts: what the branch conditions say about len(base) on entry to blk,
+// as a forward dataflow over the CFG (union at joins), so that a block reached
+// from either arm of `a || b` keeps what both arms give. base is an SSA value
+// (or a load that sameLenBase identifies), so its length does not change.
+func flowFacts(blk *ssa.BasicBlock, base ssa.Value) lenSet {
+	fn := blk.Parent()
+	in := make([]lenSet, len(fn.Blocks))
+	in[0] = lenAll
+	for changed := true; changed; {
+		changed = false
+		for _, b := range fn.Blocks {
+			if in[b.Index] == 0 {
+				continue
+			}
+			var t, f lenSet = lenAll, lenAll
+			two := false
+			if ifi, ok := b.Instrs[len(b.Instrs)-1].(*ssa.If); ok && len(b.Succs) == 2 && b.Succs[0] != b.Succs[1] {
+				if x, wt, wf, ok := condLen2(ifi.Cond); ok && sameLenBase(x, base) {
+					t, f, two = wt, wf, true
+				}
+			}
+			for si, s := range b.Succs {
+				out := in[b.Index]
+				if two {
+					if si == 0 {
+						out &= t
+					} else {
+						out &= f
+					}
+				}
+				if nv := in[s.Index] | out; nv != in[s.Index] {
+					in[s.Index] = nv
+					changed = true
+				}
+			}
+		}
+	}
+	if in[blk.Index] == 0 {
+		return lenAll // unreachable by this approximation: claim nothing
+	}
+	return in[blk.Index]
 }
